@@ -17,7 +17,12 @@ float64 at those inputs, inflated to 64 eps:
 * sums of parts: the tolerances of the parts plus 64 eps (|l| + |r|).
 
 A floor of 1e-300 absorbs gradual underflow of float64 in the far Gaussian tail
-(the long-double reference itself does not underflow there).
+(the long-double reference itself does not underflow there).  For z > ~708 the
+float64 value of exp(-z) is subnormal and carries an *absolute* rounding error (unit
+roundoff 2^-1075) which the prefactor A / (sqrt(2 pi) sigma) multiplies: the Gaussian
+bound has the term 64 * 2^-1075 * |A| / (sqrt(2 pi) sigma) (below the floor
+for |A| <= 1e6, sigma >= 1e-6; it matters for the amplitudes of 1e30 that ``guess``
+returns for data dominated by a polynomial background).
 """
 
 from __future__ import annotations
@@ -28,6 +33,7 @@ LD = np.longdouble
 EPS = float(np.finfo(np.float64).eps)
 K = 64.0
 FLOOR = LD('1e-300')
+SUBNORMAL = LD(2) ** LD(-1075)  # absolute unit roundoff of float64 in the subnormal range
 
 PI = LD('3.14159265358979323846264338327950288419716939937510')
 TWO = LD(2)
@@ -47,7 +53,7 @@ def gaussian_ref(x, amplitude, loc, scale):
     d = x - m
     z = d * d / (TWO * s * s)
     val = a / (SQRT_2PI * s) * np.exp(-z)
-    tol = LD(K * EPS) * (LD(1) + z) * np.abs(val) + FLOOR
+    tol = LD(K * EPS) * (LD(1) + z) * np.abs(val) + LD(K) * np.abs(a / (SQRT_2PI * s)) * SUBNORMAL + FLOOR
     return val, tol
 
 
